@@ -9,6 +9,7 @@ import (
 	"go/parser"
 	"go/printer"
 	"go/token"
+	"regexp"
 	"sort"
 	"strings"
 )
@@ -446,9 +447,19 @@ func lookup(m map[string]string, key string) (string, bool) {
 			return v, true
 		}
 	}
-	// keys starting with "…" match by suffix (`…[0].NotAfter`: the first element of whatever the slice is called)
+	// "…" in a key stands for any access path (`…[0].NotAfter`: the first element of whatever the slice is called;
+	// `(*….lower)`: the lower bound of whatever the interval is called); a leading "…" also matches a longer prefix
 	for k, v := range m {
-		if strings.HasPrefix(k, "…") && strings.HasSuffix(nk, norm(strings.TrimPrefix(k, "…"))) {
+		if !strings.Contains(k, "…") {
+			continue
+		}
+		parts := strings.Split(norm(k), "…")
+		for i := range parts {
+			parts[i] = regexp.QuoteMeta(parts[i])
+		}
+		// "…" = an access path: identifiers, dots, index brackets — never an operator, so a key cannot swallow a conjunct
+		pat := "^" + strings.Join(parts, `[A-Za-z0-9_\.\[\]]*?`) + "$"
+		if ok, _ := regexp.MatchString(pat, nk); ok {
 			return v, true
 		}
 	}
